@@ -229,8 +229,9 @@ def text_e2(sp):
 # ---------------------------------------------------------------------------
 # the families used by the checks
 
-def family_gfa1(tier):
-  """List of (label, spec) - the GFA1 family shared by C14 and C16."""
+def family_gfa1(tier, full3=True):
+  """List of (label, spec) - the GFA1 family shared by C14 and C16 (C16 runs
+  the thorough tier without the complete 3-link product on 3 segments)."""
   out = []
   quick = (tier == "quick")
   # F1: every set of <= 3 end pairs on <= 3 segments x 6 form/overlap
@@ -256,7 +257,7 @@ def family_gfa1(tier):
         out.append(("decor", spec("g1", n, "seq", ls, ex)))
   if not quick:
     # T1: complete product on 3 segments with 3 links
-    for ls in full(3, 3, kmin=3):
+    for ls in (full(3, 3, kmin=3) if full3 else ()):
       out.append(("full", spec("g1", 3, "seq", ls)))
     # T2: 4 links on 3 segments, 4 segments with <= 4 links: all shapes x
     #     4 patterns
